@@ -76,7 +76,7 @@ for _pid, _extra in (("C02", "every rewritten output is really concatenated with
 PROPS["C05"]["extract"] = ["mp4_consts"]
 PROPS["C16"] = {
     "extract": ["mp4_consts"],
-    "rule": "cases = headers: 4 name classes x 13 size-field values x 16 truncation points + 64-bit size values + random; constructors: the full grid u32::MAX-24..u32::MAX+24 and u64::MAX-40..u64::MAX for a FourCC, a uuid and the FourCC spelling `uuid`, both constructors; trees: random rich moov boxes (1-3 traks, unknown/uuid siblings, 32/64-bit/until-end headers at every level, one in six corrupted, one in five with trailing bytes) x random sequences of typed accessor calls {parse, traks, mdia_mut, minf_mut, stbl_mut, co_mut on all/first/last trak} and the sanitizer's own sequence. non-trivial = everything except headers too short to decode (tag trunc)",
+    "rule": "cases = headers: 4 name classes x 13 size-field values x 16 truncation points + 64-bit size values + random; constructors: the full grid u32::MAX-24..u32::MAX+24 and u64::MAX-40..u64::MAX for a FourCC, a uuid and the FourCC spelling `uuid`, both constructors; trees: random rich moov boxes (1-3 traks, unknown/uuid siblings, 32/64-bit/until-end headers at every level, one in six corrupted, one in five with trailing bytes) x random sequences of typed accessor calls {parse, traks, mdia_mut, minf_mut, stbl_mut, co_mut on all/first/last trak} and the sanitizer's own sequence; values: 500 (6600) stco / co64 payloads (entry count below / at / above what the payload holds, a random count, ragged tails, non-zero version / flags, truncations) and ftyp payloads of 0..29 bytes through the DERIVED ParseBox::parse itself (not through Mp4Box / BoxData, which test for left-over bytes a second time), serialised again: encoded_len = bytes written = the whole payload, verdict equal to the model's parseCo / parseFtyp. non-trivial = everything except headers too short to decode (tag trunc)",
     "trivial_tags": ["hdr", "trunc"],
     "trusted_base": MP4_TRUSTED + ["extract.py `mp4_consts`: mp4_int! rows and constants"],
     "assumptions": COMMON_ASSUME + ["BoxType::FourCC(*b\"uuid\") cannot be obtained by parsing and is excluded from the decode-back claim (compared with the model only)",
@@ -175,7 +175,7 @@ ADAPTER_TRUSTED = [
 ]
 PROPS["C15"] = {
     "extract": [],
-    "rule": "cases = ALL histories up to length 4 (5 in thorough) over {read 1/2/3, skip 0/1/2/3, stream_position, stream_len} on an 8-byte stream (cut at the first operation leaving the stream) x capacities 1..9 x the buffered adapters (std BufReader over Cursor / over SeekSkipAdapter, &mut, Box, BufReader over Box over BufReader, futures BufReader, Pin<Box>, futures BufReader over futures BufReader) and the unbuffered ones (Cursor, SeekSkipAdapter, futures Cursor, SeekSkipAdapter over futures Cursor) and two buffered async adapters whose inner native AsyncSkip reader returns Pending once / twice at every poll (driven by a polling loop); long random histories (up to 40 ops, reads up to 2 x capacity, skips 0 / < buffered / = / > buffered) on streams of 1..300 bytes over all 13 adapters incl. a real File, capacities 1..64, 32, 8 and 8192; sparse streams of 2^40..2^64-1 bytes with skip amounts i64::MAX-1, i64::MAX, i64::MAX+1, 2^62, 2^63+6. non-trivial = histories with at least two operations (tags n2..n9); distinct = distinct (adapter, capacity, stream, history)",
+    "rule": "cases = webpsan's ChunkDataReader at depth 1 and 2 (tags chunkdata1 / chunkdata2): ALL histories up to length 4 (5) over {read 0/1/2, skip 0/1/2/3, stream_position, stream_len} on bodies of 0..5 bytes, inside the body except possibly for the last operation, and 600 (6000) random histories on bodies up to 70 bytes incl. files ending inside the body; and ALL histories up to length 4 (5 in thorough) over {read 1/2/3, skip 0/1/2/3, stream_position, stream_len} on an 8-byte stream (cut at the first operation leaving the stream) x capacities 1..9 x the buffered adapters (std BufReader over Cursor / over SeekSkipAdapter, &mut, Box, BufReader over Box over BufReader, futures BufReader, Pin<Box>, futures BufReader over futures BufReader) and the unbuffered ones (Cursor, SeekSkipAdapter, futures Cursor, SeekSkipAdapter over futures Cursor) and two buffered async adapters whose inner native AsyncSkip reader returns Pending once / twice at every poll (driven by a polling loop); long random histories (up to 40 ops, reads up to 2 x capacity, skips 0 / < buffered / = / > buffered) on streams of 1..300 bytes over all 13 adapters incl. a real File, capacities 1..64, 32, 8 and 8192; sparse streams of 2^40..2^64-1 bytes with skip amounts i64::MAX-1, i64::MAX, i64::MAX+1, 2^62, 2^63+6. non-trivial = histories with at least two operations (tags n2..n9); distinct = distinct (adapter, capacity, stream, history)",
     "trivial_if_any": ["n0", "n1"],
     "shards": {"quick": 8, "thorough": 16},
     "exhaustive": {"quick": True, "thorough": True},
@@ -203,7 +203,7 @@ PROPS["C14"] = {
 
 PROPS["C12"] = {
     "extract": [],
-    "rule": "cases = (input, reader, schedule): 17 inputs that drive every await point (32/64-bit header reads, ftyp/moov payload reads, skips small and above i64::MAX, position/length queries for until-EOF moov, mdat and free, the end-of-scan length check, truncated / invalid inputs, remux files) x 3 readers (native AsyncSkip seek-based, native strict, SeekSkipAdapter over AsyncRead+AsyncSeek) x schedules: none, EVERY single suspended poll index (one past the end too), EVERY pair over the first 48 (400) indices, every triple over the first 40 (thorough), every poll suspended once / twice, every third, 50 suspensions up front, 40 (400) random densities. The future is polled by a deterministic executor; a suspended poll makes no progress and wakes the task. The result must equal the synchronous call's and the Lean model's async run (same schedule) must reproduce it. non-trivial = schedules in which at least one suspension was actually consumed (tag bites); distinct = distinct (input, reader, schedule)",
+    "rule": "cases = (input, reader, schedule): 29 inputs that drive every await point (12 of them move a 64-bit box header through every alignment relative to the sanitizer's 32-byte buffer, so that each header field is split between buffered bytes and a suspended read; 32/64-bit header reads, ftyp/moov payload reads, skips small and above i64::MAX, position/length queries for until-EOF moov, mdat and free, the end-of-scan length check, truncated / invalid inputs, remux files) x 3 readers (native AsyncSkip seek-based, native strict, SeekSkipAdapter over AsyncRead+AsyncSeek) x schedules: none, EVERY single suspended poll index (one past the end too), EVERY pair over the first 48 (400) indices, every triple over the first 40 (thorough), every poll suspended once / twice, every third, 50 suspensions up front, 40 (400) random densities. The future is polled by a deterministic executor; a suspended poll makes no progress and wakes the task. The result must equal the synchronous call's and the Lean model's async run (same schedule) must reproduce it. non-trivial = schedules in which at least one suspension was actually consumed (tag bites); distinct = distinct (input, reader, schedule)",
     "trivial_if_any": ["inert"],
     "shards": {"quick": 8, "thorough": 16},
     "exhaustive": {"quick": True, "thorough": True},
@@ -220,6 +220,8 @@ PROPS["C10"] = {
     "trusted_base": MP4_TRUSTED + ["the counting allocator and metering reader of the harness (harness/src/main.rs, c10.rs)", "MediaSan/Meter.lean: tracing input; validated by exact agreement of read ranges with the real run"],
     "assumptions": COMMON_ASSUME + ["'a small multiple of max_metadata_size plus a constant' is read as 4 x limit + 64 KiB for the peak heap and 2 x limit + 1088 for the returned metadata; 'a constant' for webpsan as 4 MiB (measured maxima: about 200 KiB)", "the 32-byte look-ahead is read as a count (32 bytes per top-level box visited, plus one final fill); positionally a fill that starts mid-header can reach up to 63 bytes into a box, which is what the media-inspection check allows", "bytes read by an operation that then fails are not part of the accounting theorem (they are part of the measured check)"],
 }
+
+PROPS["C10"]["rule"] += "; webp additionally: valid 1x1 lossless streams (VP8L and lossless ALPH) whose one-pixel entropy image names prefix-code group N-1, so that the validator reads N groups (2.5 input bytes per group) for N in {1,16,256,4096} (65536 in thorough): every run must be accepted and the peak heap may not follow N (within 16 KiB of the smallest run)"
 
 PROPS["C09"] = {
     "extract": [],
@@ -256,8 +258,8 @@ MANIFEST_TEXT = {
         "technique": "Lean 4 proof by a program-agreement relation (induction over I/O programs and loop fuel) + differential check over configuration lattices",
     },
     "C15": {
-        "text": "Lean theorem C15_refines: for every stream (< 2^62 bytes), seek-based or strict underlying skip, every capacity >= 1, every read chunking and EVERY history of read_exact / skip / stream_position / stream_len / fill_buf / read_to_end calls of any length, BufReader(cap) with the Skip impl of common/src/skip.rs returns exactly the bytes, positions, lengths and errors of the ideal cursor - proved as a per-operation simulation (abstraction: ideal position = inner position - buffered; buffer = stream bytes at the ideal position), including the read loop under arbitrary short reads, and lifted to histories by induction over I/O programs. SeekSkipAdapter: skip equals the ideal seek-based skip for every amount (also > i64::MAX) and stream_len restores the position. Correspondence: exhaustive short histories x capacities 1..9 x all 13 provided adapters (sync, async, forwarding, File), long random histories, sparse streams up to 2^64-1.",
-        "note": "Trusted: Lean kernel and standard axioms; the adapter model (validated differentially against std/futures BufReader, Cursor, File); nested stacks and forwarding wrappers are covered by the correspondence only.",
+        "text": "Lean theorem C15_refines: for every stream (< 2^62 bytes), seek-based or strict underlying skip, every capacity >= 1, every read chunking and EVERY history of read_exact / skip / stream_position / stream_len / fill_buf / read_to_end calls of any length, BufReader(cap) with the Skip impl of common/src/skip.rs returns exactly the bytes, positions, lengths and errors of the ideal cursor - proved as a per-operation simulation (abstraction: ideal position = inner position - buffered; buffer = stream bytes at the ideal position), including the read loop under arbitrary short reads, and lifted to histories by induction over I/O programs. SeekSkipAdapter: skip equals the ideal seek-based skip for every amount (also > i64::MAX) and stream_len restores the position. C15_chunk_data_reader / C15_chunk_data_beyond: webpsan's ChunkDataReader (webpsan/src/reader.rs), at nesting depth 1 and 2 - for every stream, every state of the reader stack with rem body bytes below the data reader and EVERY history of read / skip / stream_position / stream_len calls that stays inside them, the model of the data reader (the rawRead / rawSkip the model of webpsan::sanitize is built from) observes exactly what the ideal cursor over the same bytes observes; zero-length calls succeed on an exhausted body; beyond the body nothing is handed out. Correspondence: exhaustive short histories x capacities 1..9 x all 13 provided adapters (sync, async, forwarding, File), long random histories, sparse streams up to 2^64-1; ChunkDataReader driven directly (guarded re-export webpsan::verif_reader) at depth 1 and 2: every history up to length 4 (5) over reads and skips of 0..3 bytes and queries on bodies of 0..5 bytes, each also with one last operation leaving the body, and long random histories incl. files that end inside the body - compared with the ideal cursor confined to the body and with the model.",
+        "note": "Trusted: Lean kernel and standard axioms; the adapter model (validated differentially against std/futures BufReader, Cursor, File); nested stacks and forwarding wrappers are covered by the correspondence only; the BufReader(8) inside a nested ChunkReader is abstracted by the model (validated by the depth-2 histories).",
         "technique": "Lean 4 refinement proof (simulation per operation, induction over the read loop and over histories) + exhaustive short-history differential check over all provided adapters",
     },
     "C11": {
@@ -301,8 +303,8 @@ MANIFEST_TEXT = {
         "technique": "Lean 4 proof (case analysis on header shapes, induction over box lists, relation-parametric preservation across nesting levels) + differential check via the public parse API",
     },
     "C02": {
-        "text": "Lean theorems: the re-derived ftyp/moov headers always carry an explicit size declaring exactly header + payload (never until-EOF) and are well-formed (decode back, C16); the padding header is the 32-bit free box declaring exactly the pad; the assembled metadata is body ++ pad header ++ zeros of length metadata_len + pad. The fixpoint half is checked on the real code: the harness concatenates the returned metadata with the media span (sparse-aware), re-sanitizes, and the driver requires 'nothing to do' with span {|md|, len}; the model must agree on both runs.",
-        "note": "Partial: structure is proved; the re-sanitize fixpoint is established per generated case on the implementation (and compared with the model), not by a theorem. Trusted: Lean kernel and the three standard axioms; model validated differentially; walker; harness + driver.",
+        "text": "Lean theorem C02_structure (for EVERY stream, configuration and cursor kind): whenever the model of sanitize returns metadata, the INDEPENDENT walker and structure check Spec_C02_structure (Spec/Mp4Rules.lean - the very function the check evaluates on the real output) finds in it exactly [ftyp, moov] or [ftyp, moov, free], every box with an explicit size, the sizes tiling the metadata, the padding zero. Proved from: the encoded header is what the walker reads back at its offset (Lemmas/MetaWalk.lean hdrAt_encode, chain_ser, walk_ser), the kept ftyp / moov serialise to exactly encoded_len bytes (an invariant of the scan loop, scan_ser), the displacement keeps every length (displaceMoov_len), and the component theorems: the re-derived ftyp/moov headers always carry an explicit size declaring exactly header + payload (never until-EOF) and are well-formed (decode back, C16); the padding header is the 32-bit free box declaring exactly the pad; the assembled metadata is body ++ pad header ++ zeros of length metadata_len + pad. The fixpoint half is checked on the real code: the harness concatenates the returned metadata with the media span (sparse-aware), re-sanitizes, and the driver requires 'nothing to do' with span {|md|, len}; the model must agree on both runs.",
+        "note": "Partial: the structure of every returned metadata is a theorem of the model (C02_structure); the re-sanitize fixpoint is established per generated case on the implementation (and compared with the model), not by a theorem. Trusted: Lean kernel and the three standard axioms; model validated differentially; walker; harness + driver.",
         "technique": "Lean 4 proof of the output structure + differential correspondence incl. a real re-sanitize of every rewritten output",
     },
     "C03": {
@@ -321,7 +323,7 @@ MANIFEST_TEXT = {
         "technique": "Lean 4 proof of the component decisions + exhaustive small-layout differential check against a declarative rule set",
     },
     "C01": {
-        "text": "Lean theorems about the model of the MP4 rewrite: planRewrite arithmetic (shift = |metadata| - span.offset, fits i32, padding only when it zeroes the shift, refusal iff neither fits), exactness of the table rewrite for every width/count/displacement (each entry = old + shift, field never wraps, refusal iff an entry leaves its field, no panic), and the per-entry test equals the extracted checked_add_signed. The model is compared with the real crate on the remux generator (sparse gaps up to > 2^33, boundary entries, both reader kinds) and Spec_C01 (independent walker: same tables, every entry shifted by |md| - span.offset) is evaluated on the real output of every case.",
+        "text": "Lean theorems about the model of the MP4 rewrite: planRewrite arithmetic (shift = |metadata| - span.offset, fits i32, padding only when it zeroes the shift, refusal iff neither fits), exactness of the table rewrite for every width/count/displacement (each entry = old + shift, field never wraps, refusal iff an entry leaves its field, no panic), and the per-entry test equals the extracted checked_add_signed. The model is compared with the real crate on the remux generator (sparse gaps up to > 2^33, boundary entries, both reader kinds) and on tables whose entry count crosses the 8- and 16-bit boundaries (255..257, 65535..65537 entries, stco and co64, next to a small table of the other width) and Spec_C01 (independent walker: same tables, every entry shifted by |md| - span.offset) is evaluated on the real output of every case.",
         "note": "Partial: the theorems cover the decision arithmetic and the table rewrite; that the traversal reaches exactly the tables of every trak is established per generated case by the walker-based Spec, not by a theorem. Trusted: Lean kernel; propext, Quot.sound, Classical.choice; the hand-written model (validated differentially); the walker; harness + driver.",
         "technique": "Lean 4 proof (induction over the entry array; case analysis of the rewrite plan) + differential correspondence with spec evaluation on the implementation's output",
     },
